@@ -305,7 +305,9 @@ def gen_geom(rng):
     return {"kind": "geom", "fam": "geom",
             "ir": plain_var(rng.choice(INTS), [0, 1, 0, 0], holes(4)),
             "x": plain_var(rng.choice(DTYPES), X, holes(13)), "y": plain_var(rng.choice(DTYPES), Y, holes(13)),
-            "lon": plain_var(rng.choice(DTYPES), [10, 40], holes(2)), "lat": plain_var(rng.choice(DTYPES), [25, 7], holes(2))}
+            "lon": plain_var(rng.choice(DTYPES), [10, 40], holes(2)), "lat": plain_var(rng.choice(DTYPES), [25, 7], holes(2)),
+            # a node coordinate variable without a representative coordinate variable
+            "z": plain_var(rng.choice(DTYPES), [1, 2, 4, 2, 3, 4, 5, 5, 1, 4, 3, 2, 1], holes(13)) if rng.random() < 0.5 else None}
 
 
 def gen_dsg(rng):
@@ -772,6 +774,11 @@ def judge(chk, model_ok, cases, rows, crashed):
                             if not same(got, e):
                                 fail(c, classify_apply(name, u), f"{desc}: read(mask=False, unpack={u}, {b}) then apply_masking() [{fld}] "
                                      f"presents {name} as {brief(got)}, read(mask=True) as {brief(e)}", brief(e), brief(got), key + "|" + name)
+                    for name, e in o.get("applied", {}).items():
+                        if "err" not in e and not same(o.get("applied_again", {}).get(name), e):
+                            fail(c, "returned-array-aliases-internal-state", f"{desc}: {name} after apply_masking() reads {brief(e)}, and after "
+                                 f"overwriting that returned array in place {brief(o.get('applied_again', {}).get(name))}", brief(e),
+                                 brief(o.get("applied_again", {}).get(name)), key + "|" + name)
                     for name, e in A.items():
                         if "err" not in e and not same(o.get("after", {}).get(name), e):
                             fail(c, "apply-masking-changed-original", f"{desc}: {name} of the mask=False field changed after apply_masking() / "
@@ -948,6 +955,9 @@ def judge(chk, model_ok, cases, rows, crashed):
                                 sig = "apply-masking-differs-from-masked-read"
                             fail(c, sig, f"{desc}: read(mask=False, unpack={u}, {b}).apply_masking() [{fld}] gives {brief(o[fld])}, "
                                  f"read(mask=True) gives {brief(e)}", brief(e), brief(o[fld]), key)
+                    if "applied_again" in o and "err" not in o["applied"] and not same(o["applied_again"], o["applied"]):
+                        fail(c, "returned-array-aliases-internal-state", f"{desc}: apply_masking().array reads {brief(o['applied'])}, and after "
+                             f"overwriting that returned array in place {brief(o['applied_again'])}", brief(o["applied"]), brief(o["applied_again"]), key)
                     if o.get("unchanged") is False:
                         fail(c, "apply-masking-changed-original", f"{desc}: apply_masking() changed the field it was called on", None, None, key)
             # literals for the correspondence (netCDF4 backend; h5netcdf is tied to it by O2 and, for errors, below)
@@ -1003,6 +1013,14 @@ def judge(chk, model_ok, cases, rows, crashed):
                 "(not safely castable) / NaN / vectors; data drawn from the attribute values and their neighbours, the default fill "
                 "value, type limits, NaN; 1-d, 2-d and scalar variables; data variables and auxiliary coordinates with bounds; a "
                 "malformed stream (string-valued attributes, valid_range of 1 or 3 values, vector scale_factor/add_offset). "
+                "Constructs with children (pair-*: dimension / auxiliary coordinate / domain ancillary with bounds, cell measure, field "
+                "ancillary; parent and child of different data types, each with its own attributes, trailing rows never written so that "
+                "the library pre-fills them), polygon geometries (node coordinates, interior ring, a node coordinate without "
+                "representative coordinate, chosen data types and pre-filled elements), contiguous ragged arrays (count variable of "
+                "several integer types) and char (S1) / string variables with _FillValue / missing_value: for every construct, its "
+                "bounds and its interior ring the masked read is compared with read(mask=False) then Field.apply_masking() (copy, "
+                "in place, construct by construct), with both backends; every returned array is overwritten in place after it was "
+                "recorded and read again. "
                 "Non-trivial = at least one of the eight attributes present; distinct by canonical JSON of the variable",
         "samples": [{k: v for k, v in cases[j].items() if k in ("dt", "attrs", "fill", "data", "kind", "ckind", "parent", "child", "missing_value")}
                     for j in sorted({min(7, len(cases) - 1), len(cases) // 3, len(cases) - 60 if len(cases) > 60 else 0, len(cases) - 1})],
@@ -1021,7 +1039,16 @@ def judge(chk, model_ok, cases, rows, crashed):
         "(f4) / 2^53 (f8), the default fill value 15*2^119 and NaN; elements whose unpacked value leaves that range, and "
         "non-integer scale factors, are compared with netCDF4-python only",
         "_FillValue has the variable's own type and is scalar (the netCDF library enforces it); variables are created with fill "
-        "mode on; char/string variables are outside the model",
+        "mode on",
+        "char (S1) and string variables are outside the Coq model; the harness judges them against this reading of the NUG: cfdm "
+        "presents a char variable as strings (trailing NULs stripped); an element is missing iff it equals the fill value (the "
+        "_FillValue attribute - for a char variable one character repeated over the string length - else the default: NUL "
+        "characters / the empty string, which is what a never-written element holds) or the missing_value; netCDF4-python itself "
+        "never masks string variables and masks char variables character by character (a row is missing iff all its characters are)",
+        "the padding of ragged arrays (geometry node coordinates, interior rings, DSG rows) is masked whatever the mask setting; "
+        "'mask off => nothing masked' is judged on non-ragged arrays only",
+        "bounds whose parent has a masking attribute that they lack are outside the guard of C07_apply_masking_bounds_reproduces "
+        "(open finding apply-masking-bounds-inherit-parent-attributes)",
         "numpy element-wise arithmetic, comparison, casting and type promotion are trusted (modelled by their documented semantics)",
     ]
 
